@@ -13,7 +13,7 @@ RULE = ('one run = one connection whose output is known by construction (canned 
         'threadless and thread-per-connection mode; non-trivial = at least one send() to the client was short '
         'or hit EAGAIN or the client paused reading while output was pending; distinct = distinct event-log digests')
 PROBES = ['tunnel_class', 'short_idle_timeout', 'err400', 'err404', 'err407', 'err502', 'pieces', 'static', 'upstream_close', 'threaded',
-          'client_paused', 'teardown_deferred', 'upstream_closed_with_output_pending', 'eof', 'reset_after_data']
+          'client_paused', 'teardown_deferred', 'upstream_closed_with_output_pending', 'eof', 'reset_after_data', 'client_readable_during_drain']
 COMPONENTS = {
     'real': ['proxy/core/base/tcp_server.py', 'proxy/http/handler.py', 'proxy/core/connection/connection.py',
              'proxy/core/work/threadless.py', 'proxy/core/work/threaded.py', 'proxy/http/proxy/server.py',
@@ -185,9 +185,16 @@ def run_one(tape: Any, cfg: Dict[str, Any], forbid: FrozenSet[str] = frozenset()
         if paused:
             script += [('pause_read',), ('sleep', [0.01, 0.3, 3.0][tape.draw(3, 'pause-len')]), ('resume_read',)]
             w.probe('client_paused')
+        state = {'checked': 0, 'drain': False}
+        drain_act = tape.weighted([5, 2, 2], 'drain-act') if mode == 'upstream_close' else 0
+        if drain_act:
+            # once the proxy has seen the upstream's end-of-stream and is only draining its queue, the client (which keeps
+            # reading) half-closes or sends bytes nobody will read: its descriptor is then readable for the rest of the drain
+            script += [('wait_rx', lambda p: state['drain'])]
+            script += [('shut_wr',)] if drain_act == 1 else [('send', b'GET http://up.example/next HTTP/1.1\r\nHost: up.example\r\n\r\n', 'burst')]
+            w.probe('client_readable_during_drain')
         cl = Peer(w, 'client', script, read_mode='chunky')
         cl.read_max = max(floor, [1 << 20, 4096, 64, 3][tape.draw(4, 'readmax')])
-        state = {'checked': 0}
 
         def on_rx(peer: Any) -> None:
             if expected is None:
@@ -208,6 +215,7 @@ def run_one(tape: Any, cfg: Dict[str, Any], forbid: FrozenSet[str] = frozenset()
                     w.stats['probe:teardown_deferred'] = 1
                 if getattr(wk, 'reads_teared', False) and wk.work.has_buffer():
                     w.stats['probe:upstream_closed_with_output_pending'] = 1
+                    state['drain'] = True
         w.select_hook = hook
         w.settle(2.0, 900.0)
         w.select_hook = None
